@@ -172,7 +172,9 @@ Definition consolidate_tree (A : nat) (np tofile : bool) (t : tree) : res cstate
   let storage := encode A np (flat t) in
   match view_t A np tofile storage t 0 with
   | Raised e => Raised e
-  | Ok (t', _) => Ok {| cur := t'; snap := Some {| sn_meta := fst (meta_t A np t 0); sn_storage := storage |} |}
+  (* the snapshot attached to the result describes the RESULT (fix: D114: after consolidate(filename) its device is cpu;
+     the file keeps the metadata of the source) *)
+  | Ok (t', _) => Ok {| cur := t'; snap := Some {| sn_meta := fst (meta_t A np t' 0); sn_storage := storage |} |}
   end.
 
 (* consolidate() on a live object: "if self.is_consolidated(): return self" *)
